@@ -45,6 +45,13 @@ def run(P, rep, tier):
     rep.floor("C18.R1", 5)
     rep.floor("C18.R2", 12)
     rep.floor("C18.R3", 5)
+    # refinement against the pinned tree for every function the rules above looked at (rules/pinned.py)
+    import os as _os
+
+    if not _os.environ.get("MDSA_PINNED_GEN"):
+        from .pinned import refine
+
+        refine(P, rep, ctx, "C18")
 
 
 # ------------------------------------------------------------------------------------------- R1
